@@ -50,6 +50,17 @@ def nslc(src_path, out_path, optimize, cwd):
     return r.returncode == 0 and os.path.exists(out_path) and os.path.getsize(out_path) > 0, (r.stdout + r.stderr)[-300:]
 
 
+_PREVIOUS = None       # the program this worker stored (under the same file names) before the current one
+
+
+def _workdir():
+    """One scratch directory per worker process, reused for every instance the worker handles: consecutive programs are stored
+    under the *same* file names, as a user recompiling a module does (a loader that remembers paths would return a stale module)."""
+    d = os.path.join(tempfile.gettempdir(), f"verif-c17-{os.getppid()}", str(os.getpid()))
+    os.makedirs(d, exist_ok=True)
+    return d
+
+
 def run_instance(inst):
     from nsl import LinearIR
     src = inst["source"]
@@ -63,18 +74,21 @@ def run_instance(inst):
     except joint.Rejected as e:
         res["errors"].append(f"family member rejected: {e}")
         return res
-    tmp = tempfile.mkdtemp(prefix="verif-c17-")
+    tmp = _workdir()
     try:
         sp = os.path.join(tmp, "m.nsl")
         with open(sp, "w") as f:
             f.write(src)
         variants = []
-        ok, text = nslc(sp, os.path.join(tmp, "child.nslir"), optimize, tmp)
-        if not ok:
-            res["violations"].append(dict(what=f"nslc.py failed to write the module of an accepted program (optimize={optimize}): {text}",
-                                          replay=dict(harness="C17", inst=inst, kind="driver")))
-        else:
-            variants.append(("written by nslc.py in another process", os.path.join(tmp, "child.nslir")))
+        global _PREVIOUS
+        prev, _PREVIOUS = _PREVIOUS, dict(source=src, optimize=optimize)
+        if inst.get("vm", True):         # the driver in a child process for the members that also get the VM comparison; in-process pickling for all
+            ok, text = nslc(sp, os.path.join(tmp, "child.nslir"), optimize, tmp)
+            if not ok:
+                res["violations"].append(dict(what=f"nslc.py failed to write the module of an accepted program (optimize={optimize}): {text}",
+                                              replay=dict(harness="C17", inst=inst, kind="driver")))
+            else:
+                variants.append(("written by nslc.py in another process", os.path.join(tmp, "child.nslir")))
         try:
             with open(os.path.join(tmp, "same.nslir"), "wb") as f:
                 pickle.dump(mem.IRModule, f)
@@ -93,11 +107,17 @@ def run_instance(inst):
             got = describe(mod)
             diffs = [k for k in want if want[k] != got[k]]
             if diffs:
-                res["violations"].append(dict(what=f"reloaded module ({label}) differs from the compiled module in {diffs}", replay=dict(harness="C17", inst=inst, kind="listing", variant=label)))
+                res["violations"].append(dict(what=f"reloaded module ({label}) differs from the compiled module in {diffs}" + (" (another module was stored under the same file name before)" if prev else ""),
+                                              replay=dict(harness="C17", inst=inst, kind="listing", variant=label, previous=prev)))
                 continue
             lk = LinearIR.Linker()
             lk.AddModule(mod)
             cand = lk.Link()
+            if not inst.get("vm", True):
+                res["nontrivial"] = True
+                res.setdefault("counters", {}).setdefault("listing_gate_only", 0)
+                res["counters"]["listing_gate_only"] += 1
+                continue
             r = diffcheck.check_pair(prog, inst["fname"], ref_linked, cand, harness="C17", inst=inst, extra_pre=famcheck.make_pre(inst), label=("in-memory", "reloaded"),
                                      replay_fn=lambda vals: replay(dict(inst=inst, kind="values", inputs=vals)))
             for k in ("paths", "queries", "unsat", "sat", "undecided", "cut", "solver_time"):
@@ -107,7 +127,7 @@ def run_instance(inst):
             if r["nontrivial"]:
                 res["nontrivial"] = True
     finally:
-        shutil.rmtree(tmp, ignore_errors=True)
+        pass        # the directory is reused by the next instance of this worker; the parent removes it after the pool has finished
     return res
 
 
@@ -123,10 +143,36 @@ def replay(spec):
     tmp = tempfile.mkdtemp(prefix="verif-c17-")
     try:
         sp = os.path.join(tmp, "m.nsl")
+        kind = spec.get("kind")
+        prev = spec.get("previous")
+        if prev and kind in ("listing", "load"):
+            # the history that exposed it: another module was stored under the same names and loaded, then this one
+            try:
+                pm = joint.compile_source(prev["source"], optimize=prev["optimize"])
+                open(sp, "w").write(prev["source"])
+                nslc(sp, os.path.join(tmp, "child.nslir"), prev["optimize"], tmp)
+                with open(os.path.join(tmp, "same.nslir"), "wb") as f:
+                    pickle.dump(pm.IRModule, f)
+                for pth in ("child.nslir", "same"):
+                    try:
+                        LinearIR.FilesystemModuleLoader().Load(os.path.join(tmp, pth))
+                    except Exception:  # noqa: BLE001
+                        pass
+            except joint.Rejected:
+                pass
         open(sp, "w").write(src)
         mem = joint.compile_source(src, optimize=optimize)
         ok, text = nslc(sp, os.path.join(tmp, "child.nslir"), optimize, tmp)
-        kind = spec.get("kind")
+        if kind == "listing" and spec.get("variant", "").startswith("written in the same"):
+            with open(os.path.join(tmp, "same.nslir"), "wb") as f:
+                pickle.dump(mem.IRModule, f)
+            try:
+                mod = LinearIR.FilesystemModuleLoader().Load(os.path.join(tmp, "same"))
+            except Exception as e:  # noqa: BLE001
+                return dict(load_failure=f"{type(e).__name__}: {e}")
+            want, got = describe(mem.IRModule), describe(mod)
+            diffs = [k for k in want if want[k] != got[k]]
+            return dict(differs_in=diffs) if diffs else None
         if kind == "driver":
             return None if ok else dict(driver_output=text)
         if not ok:
@@ -151,34 +197,39 @@ def replay(spec):
 
 
 def family(tier, seed):
-    items = core1.all_core() + f3.all_templates() + f2.all_templates()
+    """-> [(item, run the differential VM comparison?)]; every member goes through the store / reload / listing gate"""
+    import random
+    rnd = random.Random(f"c17/{seed}")
+    base = core1.all_core() + f3.all_templates() + f2.all_templates()
     f4items = [it for it in f4.family("quick") if not any(t.startswith("trigger:") for t in it.tags)]
-    items += f4items
     if tier == "quick":
-        import random
-        rnd = random.Random(f"c17/{seed}")
-        items = rnd.sample(items, 90)
-        items += f1.generate(seed, 20, depth=3, nmax=3) + f3.random_calls(seed, 10)
-    else:
-        items += f1.generate(seed, 600, depth=3, nmax=3) + f3.random_calls(seed, 200)
-    return items
+        f4items = [it for k, it in enumerate(f4items) if not ({"swizzle-read", "swizzle-write"} & it.tags) or k % 12 == 0]
+        items = base + f4items + f1.generate(seed, 40, depth=3, nmax=3) + f3.random_calls(seed, 15)
+        chosen = set(id(i) for i in rnd.sample(items, 110))
+        return [(it, id(it) in chosen) for it in items]
+    items = base + f4items + f1.generate(seed, 600, depth=3, nmax=3) + f3.random_calls(seed, 200)
+    return [(it, True) for it in items]
 
 
 def run(tier, seed, only=None):
     chk = core.Check(PID, "translation_validation", tier, seed,
                      rule="one (program, optimisation level) per instance: written by nslc.py in a child process and pickled in-process, both reloaded by FilesystemModuleLoader; "
                           "arguments and globals symbolic. Distinct = distinct (source, level); non-trivial = listing gate passed and >= 1 differential query discharged")
-    items = family(tier, seed)
+    fam = family(tier, seed)
     if only:
-        items = [i for i in items if only in i.name or only in i.tags]
+        fam = [(i, v) for i, v in fam if only in i.name or only in i.tags]
+    items = [i for i, _ in fam]
     famcheck.describe(chk, items, tier)
     chk.assumptions = ["z3 Int/Real model of Python int/float", "the module compiled in memory with the same options is the reference"]
-    chk.bounds.update({"family": "F1 core, F2, F3, F4 and random F1/F3 members (quick: 120 sampled by VERIF_SEED) x optimize off/on", "outside": "pickle's own correctness; other Python versions"})
+    chk.bounds.update({"family": "F1 core, F2, F3, F4 and random F1/F3 members x optimize off/on; every member passes the store/reload/listing gate, the differential VM comparison runs on all of them (thorough) or on 110 sampled by VERIF_SEED (quick); each worker stores consecutive modules under the same file names", "outside": "pickle's own correctness; other Python versions"})
     insts = []
-    for it in items:
+    for it, vm in fam:
         for opt in (False, True):
-            insts.append(famcheck.pack(it, optimize=opt))
-    results = core.run_pool("vlib.harness.C17", "run_instance", insts)
+            insts.append(famcheck.pack(it, optimize=opt, vm=vm))
+    try:
+        results = core.run_pool("vlib.harness.C17", "run_instance", insts)
+    finally:
+        shutil.rmtree(os.path.join(tempfile.gettempdir(), f"verif-c17-{os.getpid()}"), ignore_errors=True)
     famcheck.dedupe(results)
     chk.absorb_all(results)
     return chk.finish()
